@@ -1,37 +1,200 @@
-//! Verification shim for the store crate: synchronous in-memory association list.
-use std::sync::Arc;
+//! Verification shim for the store crate (profiles L/R; profile S verifies the real one):
+//! a sequential in-memory map with the documented read / write / notify_read semantics.
+//! One global, array-backed map (capacity 8, overflow is a hard error), last write wins.
+//!
+//! Lookup resolution. A generic lookup compares the key with every stored key; with symbolic digests the
+//! outcome `Some(value) | None` is then a solver-level merge and the bytes handed to the real
+//! `bincode::deserialize` lose their concrete shape (vector lengths become symbolic). Harnesses that let the
+//! real code parse stored values therefore *script* the expected resolution of each successive lookup
+//! (`script(&[slot or MISS])`); the shim follows the script and ASSERTS (never assumes) that the scripted slot
+//! really holds the requested key / that no slot does. Any execution in which the real code looks up
+//! something else fails that assertion (`verif-script:` prefix) and is reported, not hidden.
+use std::task::Poll;
 /// Sequential interior-mutability cell (the verification executor is single-threaded).
 pub struct Mutex<T>(std::cell::UnsafeCell<T>);
 unsafe impl<T> Send for Mutex<T> {}
 unsafe impl<T> Sync for Mutex<T> {}
 impl<T> Mutex<T> {
-    pub const fn new(v: T) -> Self { Mutex(std::cell::UnsafeCell::new(v)) }
+    pub const fn new(v: T) -> Self {
+        Mutex(std::cell::UnsafeCell::new(v))
+    }
     #[allow(clippy::mut_from_ref)]
-    pub fn lock(&self) -> Result<&mut T, ()> { Ok(unsafe { &mut *self.0.get() }) }
+    pub fn lock(&self) -> Result<&mut T, ()> {
+        Ok(unsafe { &mut *self.0.get() })
+    }
 }
 
 #[derive(Debug)]
 pub struct StoreError;
 impl std::fmt::Display for StoreError {
-    fn fmt(&self, f: &mut std::fmt::Formatter) -> std::fmt::Result { write!(f, "store error") }
+    fn fmt(&self, f: &mut std::fmt::Formatter) -> std::fmt::Result {
+        write!(f, "store error")
+    }
 }
 impl std::error::Error for StoreError {}
 type StoreResult<T> = Result<T, StoreError>;
 type Key = Vec<u8>;
 type Value = Vec<u8>;
+pub const CAP: usize = 8;
+pub const MISS: i8 = -1;
+pub struct Map {
+    pub items: [Option<(Key, Value)>; CAP],
+    pub n: usize,
+    /// number of `write` calls ever made (observation aid)
+    pub writes: usize,
+    pub script: [i8; 16],
+    pub script_len: usize,
+    pub script_pos: usize,
+    /// strict: a lookup beyond the script is an error (asserted) and resolves to a miss
+    pub strict: bool,
+}
+pub static MAP: Mutex<Map> = Mutex::new(Map {
+    items: [None, None, None, None, None, None, None, None],
+    n: 0,
+    writes: 0,
+    script: [0; 16],
+    script_len: 0,
+    script_pos: 0,
+    strict: false,
+});
+/// Expected resolution of the next lookups: slot index (insertion order) or MISS. Lookups beyond the script are generic.
+pub fn script(s: &[i8]) {
+    let g = MAP.lock().unwrap();
+    let mut i = 0;
+    while i < s.len() {
+        g.script[i] = s[i];
+        i += 1;
+    }
+    g.script_len = s.len();
+    g.script_pos = 0;
+    g.strict = false;
+}
+/// Like `script`, and additionally every lookup after the scripted ones is asserted not to happen.
+pub fn script_strict(s: &[i8]) {
+    script(s);
+    MAP.lock().unwrap().strict = true;
+}
+fn keq(a: &[u8], b: &[u8]) -> bool {
+    a == b
+}
 #[derive(Clone)]
-pub struct Store { pub map: Arc<Mutex<Vec<(Key, Value)>>> }
+pub struct Store {
+    _private: (),
+}
 impl Store {
-    pub fn new(_path: &str) -> StoreResult<Self> { Ok(Self { map: Arc::new(Mutex::new(Vec::new())) }) }
-    pub async fn write(&mut self, key: Key, value: Value) { self.map.lock().unwrap().push((key, value)); }
+    pub fn new(_path: &str) -> StoreResult<Self> {
+        Ok(Self { _private: () })
+    }
+    pub async fn write(&mut self, key: Key, value: Value) {
+        let g = MAP.lock().unwrap();
+        g.writes += 1;
+        let mut i = 0;
+        while i < g.n {
+            let same = match &g.items[i] {
+                Some((k, _)) => keq(k, &key),
+                None => false,
+            };
+            if same {
+                g.items[i] = Some((key, value));
+                return;
+            }
+            i += 1;
+        }
+        if g.n >= CAP {
+            panic!("store shim: capacity bound exceeded");
+        }
+        let n = g.n;
+        g.items[n] = Some((key, value));
+        g.n += 1;
+    }
+    /// insert without the overwrite scan (harness pre-loading of distinct keys)
+    pub fn preload(&mut self, key: Key, value: Value) {
+        let g = MAP.lock().unwrap();
+        if g.n >= CAP {
+            panic!("store shim: capacity bound exceeded");
+        }
+        let n = g.n;
+        g.items[n] = Some((key, value));
+        g.n += 1;
+    }
     pub fn get(&self, key: &[u8]) -> Option<Value> {
-        let g = self.map.lock().unwrap();
-        let mut i = g.len();
-        while i > 0 { i -= 1; if g[i].0.as_slice() == key { return Some(g[i].1.clone()); } }
+        let g = MAP.lock().unwrap();
+        if g.script_pos < g.script_len {
+            let s = g.script[g.script_pos];
+            g.script_pos += 1;
+            if s >= 0 {
+                let i = s as usize;
+                match &g.items[i] {
+                    Some((k, v)) => {
+                        assert!(keq(k, key), "verif-script: scripted slot does not hold the requested key");
+                        return Some(v.clone());
+                    }
+                    None => panic!("verif-script: scripted slot is empty"),
+                }
+            } else {
+                let mut i = 0;
+                while i < g.n {
+                    if let Some((k, _)) = &g.items[i] {
+                        assert!(!keq(k, key), "verif-script: scripted miss but the key is stored");
+                    }
+                    i += 1;
+                }
+                return None;
+            }
+        }
+        if g.strict {
+            assert!(false, "verif-script: store lookup beyond the harness script");
+            return None;
+        }
+        let mut i = 0;
+        while i < g.n {
+            if let Some((k, v)) = &g.items[i] {
+                if keq(k, key) {
+                    return Some(v.clone());
+                }
+            }
+            i += 1;
+        }
         None
     }
-    pub async fn read(&mut self, key: Key) -> StoreResult<Option<Value>> { Ok(self.get(&key)) }
+    /// presence test without consuming the script (harness-side observation)
+    pub fn contains(&self, key: &[u8]) -> bool {
+        let g = MAP.lock().unwrap();
+        let mut i = 0;
+        while i < g.n {
+            if let Some((k, _)) = &g.items[i] {
+                if keq(k, key) {
+                    return true;
+                }
+            }
+            i += 1;
+        }
+        false
+    }
+    pub fn writes(&self) -> usize {
+        MAP.lock().unwrap().writes
+    }
+    pub fn len(&self) -> usize {
+        MAP.lock().unwrap().n
+    }
+    pub async fn read(&mut self, key: Key) -> StoreResult<Option<Value>> {
+        Ok(self.get(&key))
+    }
+    /// completes as soon as the key has a value (checked on every poll; never scripted)
     pub async fn notify_read(&mut self, key: Key) -> StoreResult<Value> {
-        match self.get(&key) { Some(v) => Ok(v), None => std::future::pending().await }
+        std::future::poll_fn(|_| {
+            let g = MAP.lock().unwrap();
+            let mut i = 0;
+            while i < g.n {
+                if let Some((k, v)) = &g.items[i] {
+                    if keq(k, &key) {
+                        return Poll::Ready(Ok(v.clone()));
+                    }
+                }
+                i += 1;
+            }
+            Poll::Pending
+        })
+        .await
     }
 }
